@@ -25,12 +25,37 @@ pub fn set_image(bytes: &[u8]) {
     }
 }
 
+/// element-wise variant: keeps concrete bytes concrete for CBMC's constant propagation (a bulk copy turns
+/// the whole image into one array-update expression and offsets read back from it become symbolic)
+pub fn set_image_elementwise(bytes: &[u8]) {
+    unsafe {
+        IMG_LEN = bytes.len();
+        let mut i = 0;
+        while i < bytes.len() {
+            IMG[i] = bytes[i];
+            i += 1;
+        }
+        POS = 0;
+    }
+}
+
+pub static mut ELEMENTWISE: bool = false;
+
 pub fn mem_read(_f: &mut File, buf: &mut [u8]) -> io::Result<usize> {
     unsafe {
         let pos = if POS > IMG_LEN as u64 { IMG_LEN } else { POS as usize };
         let avail = IMG_LEN - pos;
         let n = if buf.len() < avail { buf.len() } else { avail };
-        buf[..n].copy_from_slice(&IMG[pos..pos + n]);
+        if ELEMENTWISE {
+            // byte-wise: keeps concrete image bytes concrete in the reader's buffers
+            let mut i = 0;
+            while i < n {
+                buf[i] = IMG[pos + i];
+                i += 1;
+            }
+        } else {
+            buf[..n].copy_from_slice(&IMG[pos..pos + n]);
+        }
         POS = (pos + n) as u64;
         Ok(n)
     }
